@@ -96,3 +96,66 @@ Definition check_gen (c16 : bool) (c : case) : list N :=
 
 Definition check_c16 := check_gen true.
 Definition check_c17 := check_gen false.
+
+(* ---------------------------------------------------------------------------------------------- *)
+(* component fwreload (C17): certificate re-issues and config reloads through the real Interface.reloadFirewall *)
+
+(* one step: the certified unsafe networks now, HasChanged("firewall") as the config machinery reported it, the
+   configuration (default_local_cidr_any, inbound and outbound rules as the loader denotes them), whether the firewall
+   object was replaced, and the Drop probes made afterwards. The first step is the initial build. *)
+Record rstep := mkRStep {
+  rs_unsafe : list prefix; rs_changed : bool; rs_dlca : bool; rs_in : list rule; rs_out : list rule;
+  rs_rebuilt : bool; rs_probes : list probe }.
+Inductive rcase := CReload (nets : list prefix) (start_version : N) (steps : list rstep).
+
+(* probes against the current firewall, conntrack threaded (and returned: it survives reloads) *)
+Fixpoint run_rprobes (cf : fwconf) (fw : firewall) (cs : conns) (ps : list probe) : list N * conns :=
+  match ps with
+  | [] => ([], cs)
+  | p :: rest =>
+      let h := hostinfo_of (my_nets cf) (pb_peer p) in
+      let pkt := pb_pkt p in
+      let res := drop_ct fw cs (pb_in p) pkt h (pb_peer p) [] in
+      let allowed := pb_class p =? 0 in
+      let remote_refused := (pb_class p =? 1) || (pb_class p =? 2) in
+      let out :=
+        (* code 1: model *)
+        flag 1 (class_of (fst res) =? pb_class p)
+        ++ flag 1 (Bool.eqb (is_some (aget pkt_eqb pkt cs)) (pb_before p))
+        ++ flag 1 (Bool.eqb (is_some (aget pkt_eqb pkt (snd res))) (pb_after p))
+        (* code 2: the local-address universe is the CURRENT certificate's: refused as invalid-local exactly when the
+           node-side address is neither one of my addresses nor inside a currently certified unsafe network - tracked
+           or not, either direction (unless the remote address was refused first) *)
+        ++ (if remote_refused then [] else flag 2 (Bool.eqb (negb (local_authentic cf (pk_local pkt))) (pb_class p =? 3)))
+        ++ (if allowed then flag 2 (remote_authentic cf (pb_peer p) (pk_remote pkt)) ++ flag 2 (local_authentic cf (pk_local pkt)) else []) in
+      let '(r, cs') := run_rprobes cf fw (snd res) rest in
+      (out ++ r, cs')
+  end.
+
+Fixpoint run_rsteps (nets : list prefix) (fw : firewall) (cs : conns) (steps : list rstep) : list N :=
+  match steps with
+  | [] => []
+  | s :: rest =>
+      let '(fw', cs1) := reload_firewall fw cs (rs_unsafe s) (rs_changed s) (rs_dlca s) (rs_in s) (rs_out s) in
+      (* the current certificate *)
+      let cf := mkConf nets (rs_unsafe s) (rs_dlca s) in
+      let '(out, cs2) := run_rprobes cf fw' cs1 (rs_probes s) in
+      flag 1 (Bool.eqb (reload_triggered fw (rs_unsafe s) (rs_changed s)) (rs_rebuilt s))
+      ++ out ++ run_rsteps nets fw' cs2 rest
+  end.
+
+Definition check_reload (c : rcase) : list N :=
+  match c with
+  | CReload nets ver steps =>
+      match steps with
+      | [] => [1]
+      | s0 :: rest =>
+          match new_firewall (mkConf nets (rs_unsafe s0) (rs_dlca s0)) (rs_in s0) (rs_out s0) with
+          | None => [1]
+          | Some f0 =>
+              let fw := mkFw (fw_conf f0) (fw_in f0) (fw_out f0) ver in
+              let '(out, cs) := run_rprobes (fw_conf f0) fw [] (rs_probes s0) in
+              out ++ run_rsteps nets fw cs rest
+          end
+      end
+  end.
